@@ -713,11 +713,12 @@ theorem psc_reach {E : Engine} (hE : EngineOK E) (hB : SubBound E) (hh : PscHyp 
     · rename_i a ds' hinit
       injection h with h; subst h
       have hi := init_inv hE hinit
-      refine ⟨by intro hc; cases hc, fun _ => by simp [sumSeats], fun _ _ => ?_, fun _ => ?_⟩
-      · simp only [List.map_nil, cnt, List.filter_nil, List.length_nil, Nat.cast_zero, zero_mul, sub_zero]
+      simp only [selectorInput] at hinit hi
+      refine ⟨(by intro hc; cases hc), (fun _ => by simp [sumSeats, selectorInput]), fun _ _ => ?_, fun _ => ?_⟩
+      · simp only [selectorInput, List.map_nil]
         rw [support_eq_heldP_init hE hh.sne hinit]
         simp [cnt]
-      · simp only
+      · simp only [selectorInput]
         rw [hi.cont_eq]
         by_cases hk0 : k = 0
         · simp [hk0]
